@@ -222,8 +222,12 @@ def ruleMatches (p : Packet) (r : Rule) : Py Bool :=
       pure (!mis)
 
 /-- the generator `match_packet_descriptor`, fully consumed (BEST strategy, `list(...)`) -/
-def matchAll (rules : List Rule) (p : Packet) : Py (List Rule) :=
-  rules.filterM (ruleMatches p)
+def matchAll : List Rule → Packet → Py (List Rule)
+  | [], _ => pure []
+  | r :: rs, p => do
+    let m ← ruleMatches p r
+    let rest ← matchAll rs p
+    pure (if m then r :: rest else rest)
 
 /-- `next(match_packet_descriptor(...), None)`: rules after the first match are never evaluated -/
 def matchFirst : List Rule → Packet → Py (Option Rule)
